@@ -32,21 +32,28 @@
    property leaves open whether it became a sub-map.  Within one population
    a name is a file or a directory (wf_b).
 
-   C16_population_mirrors_tree_noclash proves all of [holds] for every
-   well-formed sequence of populations in which no name changes sides
-   (noclash_b), outside the two known findings.  For sequences in which a
-   name does change sides, [holds] is evaluated on every observed case and
-   the clauses (1), (2), (5) are proved (C16_population_mirrors_tree_partial,
-   all well-formed cases); (3) and (4) are not proved there.  The proof goes
-   through a path-level view of the C11 store (which paths from the
-   populated map lead to a map, and the column of handles under a key):
-   uniqueness of paths, frame lemmas for every step of __setitem__ and for
-   the new layer. *)
+   C16_population_mirrors_tree proves all of [holds] for every well-formed
+   sequence of populations outside the two known findings - also when names
+   change sides between populations.  The proof goes through a path-level
+   view of the C11 store (which paths from the populated map lead to a map,
+   and the column of handles under a key): uniqueness of paths, frame
+   lemmas for every step of __setitem__ (the names on the way lose their
+   handles in every layer; a sub-map under the final name is cut off with
+   all below it) and for the new layer; per call, the keys of its files and
+   the paths of its directories are disjoint (wf_b).  The earlier theorems
+   are kept: C16_population_mirrors_tree_noclash (the same statement under
+   the extra hypothesis that no name ever changes sides, proved by a simpler
+   invariant) and C16_population_mirrors_tree_partial (clauses (1), (2), (5)). *)
 From Coq Require Import ZArith List Bool String.
 From Desper Require Import Lib.Alist Tree.C11Model Tree.C16Model Tree.C16Proofs Tree.C16Log Tree.C16Main
-     Tree.C16Final.
+     Tree.C16Final Tree.C16GFinal.
 Import ListNotations.
 Open Scope Z_scope.
+
+Theorem C16_population_mirrors_tree :
+  forall c : C16_case, wf_b c = true -> known_b c = false -> accepts c = true -> holds c.
+Proof. intros c Hwf Hk Hacc. exact (accepts_holds_general c Hwf Hk Hacc). Qed.
+Print Assumptions C16_population_mirrors_tree.
 
 Theorem C16_population_mirrors_tree_noclash :
   forall c : C16_case, wf_b c = true -> noclash_b c = true -> known_b c = false ->
